@@ -512,8 +512,8 @@ def c18_7(ctx):
 
 def c18_10(ctx):
     """MEMO: no hash position / bit position is remembered under a key that leaves out the filter's key, size or tweak"""
-    from sa.memo import memo_obligation
-    return memo_obligation(ctx, ["compactfilter", "bloomfilter"], "the position computed for one block's filter would be looked up in another block's filter")
+    from sa.memo import cache_obligation
+    return cache_obligation(ctx, ["compactfilter", "bloomfilter", "siphash", "helper"], "the position computed for one block's filter would be looked up in another block's filter")
 
 
 def c18_11(ctx):
@@ -634,7 +634,23 @@ def c18_9(ctx):
     return out
 
 
+def c18_13(ctx):
+    """SET-ORDER: no ordered result (list, serialisation, yielded sequence) of the modules this property is anchored in takes its
+    order from the iteration order of a set"""
+    from sa.setorder import setorder_obligation
+    return setorder_obligation(ctx, ["compactfilter", "siphash", "bloomfilter", "helper"], "the same inputs give different output from run to run")
+
+
+def c18_14(ctx):
+    """SHARED necessary conditions over the modules this property is anchored in: FALSY-DEFAULT, MUTABLE-DEFAULT, IDENTITY, ALIAS,
+    CTOR-FORWARD (sa/shared.py)"""
+    from sa.shared import shared_obligations
+    return shared_obligations(ctx, ["compactfilter", "siphash", "bloomfilter", "helper"], "the result would depend on something other than the arguments and the object's current state")
+
+
 OBLIGATIONS = [
+    ("C18.14", "SHARED", c18_14),
+    ("C18.13", "SET-ORDER", c18_13),
     ("C18.1", "TABLE", c18_1),
     ("C18.2", "DATAFLOW", c18_2),
     ("C18.3", "BITS", c18_3),
